@@ -195,6 +195,7 @@ def run(chk):
     eqs = feko.find(r"self\.nf\s*==\s*other\.nf\s*&&\s*is_close\(\s*self\.scale\s*,\s*other\.scale\s*,\s*EP_CMP_RTOL\s*,\s*EP_CMP_ATOL\s*\)")
     chk.decide(len(eqs) == 1, "documented-scale-tolerance", "crates/dekoder/src/eko.rs::EvolutionPoint::eq", "points are no longer compared by equal nf "
                "and close scale with the documented constants", where=feko.rel, instance="eq")
+    _keys_handed_out(chk, src)
     chk.note(rust_files=[feko.rel, finv.rel], rust_constants=rc, header_reads=reads,
              files=["crates/dekoder/src/eko.rs", "crates/dekoder/src/inventory.rs", "src/eko/io/inventory.py", "src/eko/io/items.py", "src/eko/io/paths.py"])
     chk.explanation = "Cross-language writer/reader tables; who-may-write rule for operator files."
@@ -241,3 +242,62 @@ def _python_writer_table(src):
                 d["members"] = dict(tok[1]) if tok[0] == "npz" else None
             out[label] = d
     return out
+
+
+def _keys_handed_out(chk, src):
+    """The library hands evolution points back to the user (EKO.approx looks one up through a NumPy array); a point obtained that way
+    and used as a key again must still give a header of plain built-in numbers with an INTEGER flavour number - the Rust reader takes
+    `nf` with `as_i64` only, and `nf: 5.0` is a YAML real.  Evaluated on the model file system with NumPy scalar semantics switched
+    on in the evaluator (elements of an array built by numpy.array are np.float64 / np.int64)."""
+    from .. import dag, fsmodel
+    from ..arr import Arr
+    from ..pe import Bound, Closure, PERaise
+
+    ekoc = src.cls("eko.io.struct.EKO")
+    acls = src.cls("eko.io.access.AccessConfigs")
+    ocls = src.cls("eko.io.items.Operator")
+    mdc = src.cls("eko.io.metadata.Metadata")
+    fap = ekoc.methods["approx"]
+    fs = fsmodel.FS()
+    pe = PE(src)
+    pe.np_scalars = True
+    fsmodel.install(pe, fs)
+
+    def bound(o, name):
+        m = src.find_method(o.cls, name)
+        return Bound(o, Closure(m, m.node, None, m.module, m.qname))
+
+    def operator(tag):
+        o = Obj(ocls)
+        o.attrs.update(operator=Arr.from_nested([[[[dag.sym(f"{tag}{a}{i}{b}{j}") for j in range(2)] for b in range(2)] for i in range(2)] for a in range(2)]), error=None)
+        return o
+
+    work = fs.path("/work")
+    work.mkdir()
+    acc = Obj(acls)
+    acc.attrs.update(path=fs.path("/a.tar"), readonly=False, open=True)
+    invs = pe.call("eko.io.struct.inventories", [work, acc])
+    for inv in invs.values():
+        inv.attrs["path"].mkdir(parents=True, exist_ok=True)
+    md = Obj(mdc)
+    md.attrs.update(origin=(Fraction(2), 4), xgrid="XG", _path=work, version="0", data_version=3)
+    eko = pe.new_object(ekoc, [], dict(invs, metadata=md, access=acc))
+    ep0 = (Fraction(201, 2), 5)
+    try:
+        pe.apply(bound(eko, "__setitem__"), [ep0, operator("A")], {})
+        pe.apply(bound(eko, "__setitem__"), [(Fraction(9), 4), operator("B")], {})
+        got = pe.apply(bound(eko, "approx"), [(Fraction(201, 2), 5)], {})
+        chk.need(isinstance(got, tuple) and len(got) == 2, f"EKO.approx of a stored point returns {got!r}")
+        pe.apply(bound(eko, "__setitem__"), [got, operator("C")], {})
+    except PERaise as e:
+        chk.fail("header-kinds-agree", fap.qname, f"looking a stored point up with approx and storing under the returned key raises {e}", where=fap.where,
+                 instance="approx")
+        return
+    heads = {p_: t for p_, t in fs.files.items() if p_.startswith("/work/operators/") and isinstance(t, tuple) and t[0] == "yaml"}
+    chk.need(len(heads) == 2, f"expected two operator headers on the model file system, found {sorted(heads)}")
+    bad = {p_: t[1] for p_, t in heads.items() if not (isinstance(t[1], dict) and isinstance(t[1].get("nf"), int) and not isinstance(t[1].get("nf"), bool))}
+    chk.decide(not bad and isinstance(got[1], int) and not isinstance(got[1], bool), "header-kinds-agree", fap.qname,
+               f"EKO.approx hands back the point {got!r}; an operator stored under it gets the header {list(bad.values())[:1] or 'with integer nf'}: the "
+               f"flavour number must stay a built-in integer (a float, or a NumPy scalar turned into one, is written as `nf: 5.0`, which the "
+               f"Rust reader's as_i64 refuses - the archive can then not be listed at all)", where=fap.where, instance="approx",
+               how="PE on a model file system with NumPy scalar semantics")
